@@ -75,7 +75,7 @@ Section Agg.
 
   (** dictionaries are written by bookkeeping functions only *)
   Lemma do_action_dicts s l a : (forall g, a <> Agg g) -> dicts (x mx (do_action q blanks AND s l a)) = dicts (x mx s).
-  Proof. destruct a as [? ?|? ?|? ?|? ?|? ?|g]; intros H; cbn; try (destruct (rev _)); cbn; try reflexivity. exfalso. apply (H g). reflexivity. Qed.
+  Proof. destruct a as [? ?|? ?|? ?|? ?|? ?|? ?|g]; intros H; cbn; try (destruct (rev _)); cbn; try reflexivity. exfalso. apply (H g). reflexivity. Qed.
 
   (** first(): one evaluation *)
   Theorem first_step s l nm i :
@@ -117,10 +117,10 @@ Section Agg.
     intros Ho H. unfold first_owns in Ho.
     destruct c as [b|a|b a|g]; cbn [eval comp_agg] in *.
     - exact H.
-    - destruct a as [? ?|? ?|? ?|? ?|? ?|g]; try (cbn [fst]; unfold dget in *; rewrite do_action_dicts; [exact H|discriminate]).
+    - destruct a as [? ?|? ?|? ?|? ?|? ?|? ?|g]; try (cbn [fst]; unfold dget in *; rewrite do_action_dicts; [exact H|discriminate]).
       cbn [fst do_action]. apply do_agg_keeps_first; [destruct g; exact Ho|exact H].
     - destruct (beval q blanks s l b); [|exact H].
-      destruct a as [? ?|? ?|? ?|? ?|? ?|g]; try (cbn [fst]; unfold dget in *; rewrite do_action_dicts; [exact H|discriminate]).
+      destruct a as [? ?|? ?|? ?|? ?|? ?|? ?|g]; try (cbn [fst]; unfold dget in *; rewrite do_action_dicts; [exact H|discriminate]).
       cbn [fst do_action]. apply do_agg_keeps_first; [destruct g; exact Ho|exact H].
     - apply do_agg_keeps_first; [destruct g; exact Ho|exact H].
   Qed.
